@@ -18,7 +18,7 @@ import (
 var truthValues = []lang.Value{
 	lang.Bool(true), lang.Bool(false), lang.Null(),
 	lang.Int(0), lang.Int(1), lang.Int(-1), lang.Int(2), lang.Int(12), lang.Int(13), lang.Int(24), lang.Int(268), lang.Int(269), lang.Int(65534), lang.Int(65535), lang.Int(65536), lang.Int(65537), lang.Int(131072), lang.Int(-65536), lang.Int(-9007199254740993),
-	lang.Float(0), lang.Float(0.5), lang.Float(-0.5), lang.Float(1e-7), lang.Float(3),
+	lang.Float(0), lang.Float(0.5), lang.Float(-0.5), lang.Float(1e-7), lang.Float(3), lang.Float(5e-324), lang.Float(-5e-324), lang.Float(1e-323), lang.Float(math.MaxFloat64), lang.Float(math.Copysign(0, -1)),
 	// not a number (neither positive nor anything else), and the infinities;
 	// these reach a script through fields, SetVariable, functions and float()
 	lang.Float(math.NaN()), lang.Float(math.Inf(1)), lang.Float(math.Inf(-1)),
